@@ -28,6 +28,25 @@ class App:
         if kind == "single":
             start_response(p["status"], list(p["headers"]))
             return [b"ok"]
+        if kind == "single-empty":
+            start_response(p["status"], list(p["headers"]))
+            return []
+        if kind == "excinfo-first":
+            # an error handler's first (and only) call carries exc_info: the status is checked like any other
+            import sys
+            try:
+                raise ValueError("x")
+            except ValueError:
+                start_response(p["status"], list(p["headers"]), sys.exc_info())
+            return [b"ok"]
+        if kind == "excinfo-replace":
+            import sys
+            start_response("200 OK", [("X-First", "1")])
+            try:
+                raise ValueError("x")
+            except ValueError:
+                start_response(p["status"], list(p["headers"]), sys.exc_info())
+            return [b"ok"]
         if kind == "swallow":
             # the application catches the refusal of its bad start_response call and carries on with a fallback body
             try:
@@ -177,6 +196,12 @@ def cases():
             yield "hop-with-upgrade", {"kind": "single", "status": "200 OK", "headers": [("Connection", "upgrade"), (h.title(), val), ("X-Z", "z")]}
             yield "hop-with-upgrade", {"kind": "single", "status": "200 OK", "headers": [(h.title(), val), ("Connection", "upgrade"), ("X-Z", "z")]}
             yield "hop-with-upgrade", {"kind": "single", "status": "101 Switching Protocols", "headers": [("Connection", "Upgrade"), ("Upgrade", "websocket"), (h.title(), val), ("X-Z", "z")]}
+    for cl0 in ("0", "00", " 0", "0 "):
+        for extra in ([], [("X-Z", "z")]):
+            yield "content-length-zero", {"kind": "single-empty", "status": "200 OK", "headers": [("Content-Length", cl0)] + extra}
+    for k in ("excinfo-first", "excinfo-replace"):
+        for bad in ("500 Oops\r\nSet-Cookie: evil=1", "500 Oops\n", "500 O\x00ps", "500\rX: y Oops", "200 OK"):
+            yield "status-with-excinfo", {"kind": k, "status": bad, "headers": [("X-Z", "z")]}
     for e in ("FileNotFoundError", "OSError-EIO", "PermissionError", "ValueError", "TimeoutError", "BrokenPipeError", "KeyError"):
         for via in ("call", "iter"):
             yield "raise-after-write", {"kind": "raise-after-write", "exc": e, "via": via}
@@ -220,7 +245,13 @@ def judge(label, prog, o, ver):
         if first.code != 200 or first.body != want or first.get(b"x-second"):
             return "late-start_response-changes-response", "status %s body %r (application wrote %r) X-Second=%r" % (first.code, first.body[:60], want[:20], first.get(b"x-second"))
         return None
-    if prog["kind"] != "single":
+    if prog["kind"] in ("excinfo-first", "excinfo-replace"):
+        why = must_refuse(prog["status"], prog["headers"])
+        head = wire.split(b"\r\n\r\n")[0]
+        if why is not None and (b"evil" in head or b"\x00" in head or any((b"\n" in ln or b"\r" in ln) for ln in head.split(b"\r\n")) or b"\r\nX: y" in head):
+            return "not-refused:status-with-exc_info", "%s in a start_response call that carries exc_info: the wire has %r" % (why, wire[:160])
+        return None
+    if prog["kind"] not in ("single", "single-empty"):
         # repeated start_response: no line other than server lines and X-First / X-Second, never 'Injected'
         if b"Injected" in wire.split(b"\r\n\r\n")[0]:
             return "forged-line-via-late-start_response", "head %r" % wire[:200]
